@@ -176,7 +176,10 @@ def run_symbolic(ob, grid, timeout_ms=20000, max_leaves=3000):
                             out['error'] = 'solver: %s on %s' % (be, label)
             out['status'] = worst
     except OutOfReach as e:
-        out['status'] = 'out-of-reach'
+        from .npshim import SuspectConstruct
+        # a tolerance test steering the traced code is reported like an undischarged proof ('unknown'), a missing model
+        # function as a tool limit ('out-of-reach')
+        out['status'] = 'unknown' if isinstance(e, SuspectConstruct) else 'out-of-reach'
         out['error'] = str(e)
     except (NeedSplit,) as e:
         out['status'] = 'out-of-reach'
